@@ -360,3 +360,97 @@ Lemma Inv11_run : forall c ls s, run2 (init2 c) ls = Some s -> Inv11 s.
 Proof.
   intros c. apply run2_invariant; [apply Inv11_init|intros; eapply Inv11_step; eauto].
 Qed.
+
+(* ---- what one step does to the outgoing stream, the salt and the session store --------------- *)
+
+Definition same_salt (s s' : state2) : Prop :=
+  adopt s' = adopt s /\ salt (base s') = salt (base s) /\ store (base s') = store (base s) /\
+  (forall i, rejected (base s') i -> rejected (base s) i).
+
+Inductive wire_step (s s' : state2) : Prop :=
+| ws_quiet : wire (base s') = wire (base s) -> same_salt s s' -> wire_step s s'
+| ws_write : forall w, wire (base s') = w :: wire (base s) -> w_salt w = salt (base s) ->
+    (forall w', In w' (wire (base s)) -> w_id w' < w_id w) -> same_salt s s' -> wire_step s s'
+| ws_adopt : forall x c, wire (base s') = wire (base s) ->
+    adopt s' = (x, length (wire (base s)), c) :: adopt s -> salt (base s') = x ->
+    store (base s') = x :: store (base s) ->
+    (forall i, rejected (base s') i -> rejected (base s) i \/ c = CBadSalt i true) ->
+    (forall i, c = CBadSalt i true -> rejected (base s') i /\ exists ch, In (i, ch) (table (base s))) ->
+    wire_step s s'.
+
+Lemma same_salt_wb : forall s b', salt b' = salt (base s) -> store b' = store (base s) ->
+  (forall i, rejected b' i -> rejected (base s) i) -> same_salt s (wb b' s).
+Proof. intros. repeat split; auto. Qed.
+
+Lemma dispatch2_wire : forall f ks s, wire_step s (dispatch2 f ks s).
+Proof.
+  intros [[sid seq] b] ks s. unfold dispatch2.
+  assert (RJ : forall (e : event) l i, (forall v, e <> EDisp i v) -> In (EDisp i VRetry) (e :: l) -> In (EDisp i VRetry) l).
+  { intros e l i N [X|X]; auto. destruct (N _ X). }
+  assert (FAIL : wire_step s (fail2 (upd_base (log (ERecv sid seq)) s))).
+  { apply ws_quiet; [rewrite base_fail2; reflexivity|]. unfold same_salt, fail2, warn2. cbn [upd_base wb wch].
+    destruct (wch s) as [|cap n]; [|destruct (Nat.ltb n cap)]; repeat split; auto;
+      unfold rejected; simpl; intros i [X|X]; try discriminate; auto. }
+  destruct (negb (decodes (hinted_for b (base s)) b)); [exact FAIL|].
+  destruct (strip b) eqn:SB; try exact FAIL.
+  - destruct (lookup req (table (base s))); [|exact FAIL].
+    apply ws_quiet; [reflexivity|]. repeat split; auto. unfold rejected. simpl. intros i [X|[X|X]]; try discriminate; auto.
+  - destruct (lookup req (table (base s))); [|exact FAIL].
+    apply ws_quiet; [reflexivity|]. repeat split; auto. unfold rejected. simpl. intros i [X|[X|X]]; try discriminate; auto.
+  - apply ws_quiet; [reflexivity|]. repeat split; auto. unfold rejected. simpl. intros i [X|X]; try discriminate; auto.
+  - apply ws_quiet; [reflexivity|]. repeat split; auto. unfold rejected. simpl. intros i [X|X]; try discriminate; auto.
+  - apply ws_quiet; [reflexivity|]. repeat split; auto. unfold rejected. simpl. intros i [X|X]; try discriminate; auto.
+  - apply ws_quiet; [rewrite base_upd, base_handle2; reflexivity|].
+    unfold same_salt, handle2, warn2. cbn [upd_base wb wch handler].
+    destruct (handler s); [|destruct (wch s) as [|cap n]; [|destruct (Nat.ltb n cap)]]; repeat split; auto;
+      unfold rejected; simpl; intros i [X|X]; try discriminate; auto.
+  - eapply ws_adopt; try reflexivity.
+    + unfold rejected. simpl. intros i [X|X]; try discriminate; auto.
+    + discriminate.
+  - destruct (lookup bad (table (base s))) as [ch|] eqn:LK.
+    + eapply ws_adopt; try reflexivity.
+      * unfold rejected. simpl. intros i [X|[X|X]]; try discriminate; auto. inversion X. auto.
+      * intros i E. inversion E; subst. split; [unfold rejected; simpl; auto|]. exists ch. apply lookup_In; auto.
+    + eapply ws_adopt; try reflexivity.
+      * unfold rejected. simpl. intros i [X|X]; try discriminate; auto.
+      * discriminate.
+Qed.
+
+Lemma step1_wire : forall s l b', InvA (base s) -> old_ok (base s) l -> step (base s) l = Some b' ->
+  wire_step s (wb b' s).
+Proof.
+  intros s l b' IA OK H. remember (base s) as b eqn:EB.
+  assert (Q : forall b1, wire b1 = wire b -> salt b1 = salt b -> store b1 = store b -> elog b1 = elog b ->
+              wire_step s (wb b1 s)).
+  { intros b1 W A B C. apply ws_quiet; [rewrite <- EB; exact W|]. unfold same_salt. rewrite <- EB. repeat split; auto.
+    unfold rejected. simpl. rewrite C. auto. }
+  destruct l as [t h|[t|] clk|f|].
+  - step_cases H. apply Q; auto.
+  - step_cases H.
+    + apply Q; auto.
+    + eapply ws_write; try reflexivity.
+      * intros w' W. simpl. apply (a_reg _ IA i); auto. left. exists t. auto.
+      * unfold same_salt. repeat split; auto. unfold rejected. simpl. intros i0 [X|X]; [discriminate|auto].
+    + apply Q; auto.
+  - simpl in OK. step_cases H; try (destruct OK; fail); try (apply Q; auto; fail).
+    eapply ws_write; try reflexivity.
+    + intros w' W. simpl. apply (a_reg _ IA i); auto. right. eauto.
+    + unfold same_salt. repeat split; auto. unfold rejected. simpl. intros i0 [X|X]; [discriminate|auto].
+  - step_cases H. apply Q; auto.
+  - step_cases H. apply Q; auto.
+Qed.
+
+Lemma step2_wire : forall s l s', InvA (base s) -> step2 s l = Some s' -> wire_step s s'.
+Proof.
+  intros s l s' IA H. apply step2_inv in H. destruct H.
+  - eapply step1_wire; eauto. apply lifted_old_ok; auto.
+  - apply ws_quiet; [reflexivity|]. repeat split; auto.
+  - eapply ws_adopt; try reflexivity; [auto|discriminate].
+  - apply ws_quiet; [rewrite base_warn2; reflexivity|]. unfold same_salt, warn2. cbn [upd_base wb wch].
+    destruct (wch s) as [|cap n]; [|destruct (Nat.ltb n cap)]; repeat split; auto.
+  - apply dispatch2_wire.
+  - apply ws_quiet; [reflexivity|]. repeat split; auto.
+  - apply notify_b_inv in H1. destruct H1 as [[_ E]|(t & k & j & L & P & K & E)]; subst b';
+      (apply ws_quiet; [reflexivity|]); repeat split; auto.
+  - apply ws_quiet; [reflexivity|]. repeat split; auto.
+Qed.
